@@ -3,9 +3,9 @@ from .core import BASE_TRUST, LEAN, Lock, Problem
 
 META = {
     "category": "proof",
-    "text": "PARTIAL. Lean 4 proof, over facts regenerated from /repo on every run (extract/errfacts: go/ast + go/types over every package of the module), of: the loaders' totality and rectangularity (csv/tsv, ltsv, fixed-length: EVERY character string under EVERY option vector decodes to an error or to a table whose records all have the header's length - theorems csv_loader_total, ltsv_loader_total, fixed_loader_total, re-using C02; JSON and JSON Lines: json_loader_total / jsonl_loader_total for every text [scanner + grammar + structure mapping of C02's models] and json_structure_loader_total / jsonl_structure_loader_total / json_query_loader_total for EVERY decoded JSON value - the structure mapping of lib/json LoadTable with the empty query and with the json-query {}, ConvertToTableValue and the collector of loadViewFromJsonLinesFile, modelled in the shape of the code in Csvq/Model/JsonStruct.lean, returns an error or a table whose records all have the header's length, whatever the key sets, key orders, repeated keys, non-object elements or nesting; fixed_singleline_loader_total: the same for single-line fixed-length files S[...]); the error -> exit-code table (exit_code_total: every constructor of lib/query/error.go passes a return code of the manual's Return Code table or one of the three documented dynamic codes EXIT n / TRIGGER ERROR n / 128+signal; return_codes_documented, exit_default_documented, error_numbers_distinct, ctor_numbers_known, ctor_number_determines_code); the listed index-guard fragments (strToTime_index_in_range: every s[i] of value.StrToTime under the path conditions on len(s) read off the source is in range for every length; arg_index_in_range (Csvq/Props/C19Args.lean): EVERY index / slice expression on an argument slice - the slice parameters of all function values of the Functions and AggregateFunctions tables and of every helper that receives them unchanged [roundParams, execMath1Arg, execStringsPadding, prepareRegExpMatch, StringFormatter.Format, UserDefinedFunction.execute ...], and the unevaluated lists <p>.Args in evalFunction / evalAggregateFunction / evalListFunction / checkArgsFor... / Analyze / windowValues / every AnalyticFunction's Execute under what its own CheckArgsLen established / setNthValue / setLag, with the locals built from them - is in range for EVERY number of arguments and every value of the index variable, under the conditions on the length that dominate it in the source [enclosing if / switch / && / ||, the negation of every earlier early return, loop conditions; regenerated facts, checker ArgIndexSite.ok proved sound for all lengths], except five reviewed sites whose guard is a call [UserDefinedFunction.CheckArgsLen with len-1; `expr.Args == nil` after the parser's arguments rule] and zero known defects in the argument handling; the same theorem covers the CONSTANT-INDEX SWEEP [family const: every X[k] / X[len(X)-k] / X[a:b] with constant bounds on a variable or field path of slice or string type in lib/query, lib/action, lib/cli, lib/option under the length conditions of the same function: 154 sites, 64 proved in range - e.g. prepared.Statements[0] of Cursor.Open -, the others, guarded by an invariant that is not a length condition in the same function, are PINNED by class with their number of occurrences (pinnedConstIndexSites: reviewed by class, NOT proved) so that a new or weakened guard breaks the obligation; one known site: release[0] of the network-only check-update sub-command on an empty JSON array]; arg_unknown_sites_reviewed: the six uses of such a slice without a rule are reviewed; arg_facts_cover_function_table: every key of the three function tables, every special and list function has a count-check fact [a new built-in without facts breaks the obligation]; limit_in_bounds, offset_in_bounds, limit_percent_nan_refused from C07; cursor_index_inv from C16); EVERY unchecked type assertion x.(T) of the hand-written files of lib/query, lib/action, lib/cli, lib/parser, lib/value, lib/json, lib/option (more than 500 sites, the count per guard class and per file is in the evidence; Csvq/Props/C19Asserts.lean) with its guard classified syntactically and checked per class - assertion_sites_ok / assertion_site_safe: inside `case T:` of a type switch over the same expression; behind a successful comma-ok test; or a value whose possible dynamic types form a regenerated finite set [the return statements of the function it comes from, followed through calls - value.ToInteger: *Integer or *Null ...; the GRAMMAR CONTRACT: what the actions of parser.y (a fixpoint over its productions) and every composite literal / assignment of the module store in that field of a parser node, nil if left out; what is ever stored in the SyncMap wrappers and sync.Pool variables] minus what dominating tests exclude [!value.IsNull(x), x != nil], every remaining type being (or implementing) T; or a value fetched BY NAME from a function that picks the type of its result by that name [Transaction.GetFlag, GetRuntimeInformation: regenerated table name -> types] inside `case <these names>:` of a switch over the same name; the sites outside the classes are listed ONE BY ONE (53 reviewed by kind of guard; no known defect left: the two the facts turned up - a back-quoted `JSON_OBJECT`(c1) and DELETE FROM (t), both [Fatal Error] interface conversion - are repaired in /repo, F107 / F108), a new unchecked assertion or a guard that no longer dominates breaks the obligation and is reported as assert:<file>:<function>:<x>.(<T>)#<occurrence>; and two static absence facts: no method call on an error variable where a DIFFERENT error variable is the one known non-nil (nil_error_sites_except_known) and no recover() guarded by state another goroutine sets (recover_unconditional_except_known) - each open site is reported as nilerr:<file>:<function>:<expr> / recover:<file>:<function>:<guard>. SIZE SITES (Csvq/Props/C19Sizes.lean over Csvq/Gen/SizeFacts.lean, regenerated by extract/errfacts/sizefacts.go for EVERY function of lib/query): one obligation per operand that makes the Go runtime panic when out of range - the count of strings.Repeat / bytes.Repeat, length and capacity of make([]T, n, c), every index with + / - in it (0 <= i, i < len), every slice expression with a non-constant bound (0 <= a <= b <= cap) - 311 obligations, each with the operand as an integer IR and the facts that dominate the site read off the function by one structured walk (enclosing if / else / switch conditions, the negation of every early return above, definitions of the local variables involved, joins of branches as disjunctions [the clamp `if padLen < 0 { padLen = 0 }`], loop conditions and range bounds, 0 <= len <= cap, lower bounds of counters); size_sites_nonneg: for every obligation that is not in the reviewed list, for ALL integer valuations that satisfy the facts the operand is in range (one omega proof per obligation, built by the uniform tactic size_decide and checked by the kernel; 244 proved, among them all five Repeat counts of StringFormatter.Format [format_repeat_counts_proved]); what needs non-linear arithmetic, a parameter / callee contract, an invariant between data structures or a string-search result is pinned in exemptSizeSites (65 entries for 67 obligations, each with its reason and number of occurrences; exempt_size_counts, exempt_size_sites_exist: none stale), so a NEW unguarded site or a guard weakened until it no longer implies the range is a broken obligation; the driver then evaluates the same IR over small valuations (SCond.check, proved equal to the meaning: size_search_sound) to name a violating valuation, and for the formatter the valuation (width, len(s), len(sign)) is turned into FORMAT calls run on the binary built from the tree (law internal_panic with the call as replay). Fact sources added in the second round: every struct field has its own epoch under the variable it is reached from — an assignment `view.offset = 0` gives only that field a new name and a value fact (clamps written through a field are now facts: View.Offset's bounds are proved), a call forgets exactly the fields its callee can write, transitively, under the variables it gets (extract/errfacts/writes.go: per function of the module the fields on its assignment targets / address-of operands, closed over its calls; methods called through an interface = the union over the module's methods of that name; a function value = everything), fields never written anywhere in the module keep their value (GoroutineTaskManager.Number); a / c and a % c with a positive constant c are linearised truncated division; a successful make(n) leaves 0 <= n. LOOPS (Csvq/Props/C19Loops.lean over Csvq/Gen/LoopFacts.lean): all 63 `for` statements of lib/query, lib/value, lib/json that are not a range (the goyacc output of lib/json aside) with candidate measures read off their exit conditions (`i < n` -> n - i, `a <= b` -> b - a + 1, `!=` -> both differences, `for {}` -> the conditions of its `if c { break / return }`), each measure read at the head and at every back edge (end of the body, every continue, then the post statement): 81 obligations `measure' < measure and 0 <= measure` for ALL valuations of one iteration; loop_sites_terminate: 41 loops have a measure all of whose back edges are proved; 22 are reviewed in exemptLoopSites with reasons (16 have no integer measure at all: iterators, scanners, readers, the user's WHILE; Rand's rejection sampling; setNthValue's direction chosen before the loop; a fallthrough; an element read twice); for a loop that is neither, the driver's search names an iteration in which the measure does not decrease. Integers are mathematical: a loop that ends after 2^63 rounds or only by wrapping (C19-m11 / F52) is outside the statement and stays with the window-frame grid. CONVERSIONS (Csvq/Gen/IntConvFacts.lean): every float -> integer and narrowing / sign-changing integer conversion (8 in the walked packages; int64 -> int is the same width) whose result reaches a size or loop obligation of its function (5) gets float_to_size_guarded in two parts: the operand is a number (nan = 0) and its floor is inside the target's range, under the facts at the conversion; floats are carried as (nan, floor): a comparison that was TRUE says both operands are numbers, one that was FALSE says so only if no operand is NaN (the F11 shape), math.IsNaN decides; conv_nan_parts_proved: all four NaN parts are proved (removing View.Limit's IsNaN check breaks it), the range of View.group's min(len/18, 1000) is proved, the ranges of three products / quotients and Rand's deliberate uint64 wrap are reviewed. Two exhaustive in-process grids are the dynamic twins: FORMAT / PRINTF placeholders (14 verbs x 5 flags x widths none 1 2 3 20 and digits-1 .. digits+2 x 5 precisions x 32 arguments, ~60000 calls) and LIMIT / OFFSET / WITH TIES / PERCENT over tables of 0..8 records with ties at both ends (every limit and offset 0..n+2, with / without ORDER BY, analytic and nested forms; with ORDER BY the rows are compared with the cut of the sorted keys: law limit_offset_rows). EXPLORATION for the rest of the property (a universally quantified absence over the whole program): process-level fuzzing of the real binary - arbitrary and mutated bytes x 6 formats x delimiter / positions / encoding / no-header / allow-uneven-fields / without-null / json-query as file, table object and stdin, with the rectangularity of the loaded view checked directly on the real loader; every key of the Functions / AggregateFunctions / AnalyticFunctions tables with 0-5 boundary arguments (scalar and over a 200-row table with --cpu 4); the ARITY GRID (correspondence, not only exploration): every name of the three tables, NOW / JSON_OBJECT / CALL and LISTAGG / JSON_AGG with EVERY argument count 0..7 [the widest built-in takes 5] through SQL text in-process (parser + evaluator glue + function; scalar and over a table, DISTINCT, GROUP BY, OVER (), PARTITION BY / ORDER BY / ROWS frames, IGNORE NULLS, WITHIN GROUP; 5-6 small argument vectors per count), user-defined scalar / aggregate functions with and without defaults against their declared signature; one op `c19.arity <table> <NAME> <count>` per cell: the implementation's answer [argument-length error or not] is compared with the Lean driver's answer computed from the regenerated count checks, a [Fatal Error] is confirmed on the binary and reported; the `fields` sub-command with an argument grid of every shape a FROM clause text can take [existing / missing file, identifier spellings, file: URLs, STDIN, table functions and *_INLINE forms, DUAL, parenthesised tables, sub-queries, set operations, join lists, aliases, trailing clauses, several statements, comments, empty, keywords]; prepared statements from degenerate texts [no statement, several, not a query, placeholders, broken, texts that use prepared statements] x every consumer of a statement name [EXECUTE with / without USING, cursor FOR statement + OPEN with / without USING + FETCH / loop, DISPOSE PREPARE then use, re-PREPARE between declaration and OPEN, inside a function]; every kind of named object [file table, temporary view, cursor, cursor for a statement, scalar / aggregate function, prepared statement, variable, undeclared, DUAL, built-in name] x 48 syntactic roles that take a name; every built-in / special / aggregate / analytic name and 18 keyword-like names called BACK-QUOTED (the generic production identifier '(' arguments ')') with 0-3 arguments, plain / OVER () / without FROM; 24 shapes of table object [identifier, quoted file, parenthesised table / join, join, table list, alias, sub-query, LATERAL, DUAL, STDIN, table function, inline table, file: URL, FILE:: / DATA::, temporary view, missing, keyword] as the target of 19 statements [DELETE (4 forms), UPDATE (2), INSERT (2), REPLACE, ALTER (4), SHOW FIELDS, FOR UPDATE, CREATE TABLE AS, DISPOSE VIEW, cursor, sub-query]; an IN-PROCESS function fuzzer (child processes of the harness call query.Functions[name] and the aggregate functions directly, under recover(), a memory limit and a watchdog: arity 0, ALL single values, ALL pairs over a typed compact pool of ~210 values [int64 / float boundaries, NULL, ternaries, datetimes, strings, every 1-character string over a 20-symbol alphabet, grammar-generated FORMAT / DATETIME_FORMAT strings, JSON texts, JSON queries incl. lone quotes and truncated forms, regular expressions, encoding / unit names] plus every 2-character string x 8 partners, ALL triples over a 16-value pool, a mode grid f(s,m) / f(s,x,m) / f(s,i,s2,m) / f(s,i,s2,m,m2) over 13 strings whose length, byte count and display width differ (empty, zero-width, combining, wide, surrogate pair, control, 5000 characters) x 6 small integers x 10 unit / encoding names, sampled 3-5-tuples: ~8 million calls per run; every recovered panic / stall is CONFIRMED on the real binary as csvq 'SELECT fn(<literals>)' before it is reported); JSON_OBJECT / JSON output key paths (aliases with dots, brackets, duplicates, empty) and malformed JSON queries through JSON_VALUE / JSON_ROW / JSON_TABLE / JSON_INLINE / JSON() / JSONL() / --json-query / SET @@JSON_QUERY; every clause and statement kind of the manual with holes filled from a boundary pool; file-system conditions (missing file, directory / dangling symlink / loop / FIFO in place of a file, unwritable targets of -o and CREATE TABLE, removed working directory, stale lock files); programs that reach the SAME file through different access paths in one transaction (plain name, quoted path, ./path, CSV/TSV/FIXED/JSON/JSONL/LTSV table functions, *_INLINE functions, sub-queries; read / FOR UPDATE / UPDATE / INSERT / DELETE / ALTER / after CREATE TABLE; every ordered pair per file, sampled triples); the grammars of structured option values (delimiter positions incl. s[], [ ], negative, decreasing, huge, nested, non-JSON; delimiter; encoding; line break; JSON escape; time zone; datetime format; numeric and boolean options) through every route that takes them (table function, command-line option, SET @@flag, ALTER TABLE, stdin, --out, csvq_env.json); option pairs over ragged / empty / blank-line data with column references beyond the shortest line; stale lock / read-lock / temp control files with wait timeouts 0, negative, tiny; joins of every kind x {field-less, empty, one, many rows} on each side at --cpu 1 and 4; option values crossed pairwise between the session level (option / SET @@) and the table-function arguments; user-defined functions whose body changes or reads tables, called from INSERT...SELECT / UPDATE / WHERE / JOIN / GROUP BY / ORDER BY; duplicate / unknown / too many names in USING, GROUP BY, ORDER BY, PARTITION BY, INSERT / REPLACE / CREATE / ALTER column lists; pathological LIKE patterns and regular expressions over 30-60 character subjects; tables with records but no fields in every clause position and output format; clause combinations in one query ({plain, analytic, aggregate, DISTINCT, GROUP BY, HAVING} x ORDER BY on {column, alias, ordinal, computed expression not in the list, aggregate, analytic, sub-query} x LIMIT / OFFSET over 2-5 rows); every output format x cells and header names that start with / end with / consist only of / contain each special character (CR, LF, CRLF, TAB, quotes, backslash, NUL, ESC, wide, combining, RTL, zero-width, BOM, invalid UTF-8 ...) with and without --out; window frames with int64-boundary offsets in every position (low / high bound x PRECEDING / FOLLOWING x every windowed function, 10 s watchdog); JSON Lines x json-query where the query yields [] / a scalar / a non-object for some lines (flag, JSONL(), SET @@JSON_QUERY, stdin); deterministic reproducers of the KNOWN findings F83 (self / mutual SOURCE nesting), F84 (unbounded user-defined-function recursion) and - thorough tier only - F97 (a prepared statement whose text executes itself), run under a small address-space limit and recognised by the nested frames of the goroutine dump; real files with record counts on both sides of the loader's internal thresholds (299, 300, 301, 320, 450, 680, 2000 and generated counts) x file encodings (UTF-8, UTF-8 BOM, Shift_JIS, UTF-16 LE/BE with and without BOM) read with the matching option, AUTO or a wrong one x cell repertoires that shrink or grow under transcoding (ASCII, half-width katakana, CJK, emoji, mixed) x CSV / TSV / LTSV / fixed-length / JSON Lines. Oracle: exit code documented, no 'Fatal Error' / Go panic text, 20 s wall-clock bound (a time-out is reported only if the job names no large quantity and still does not end when it is re-run alone with 4 times the bound), rectangular view, and no exhaustion of the 3 GB address space by a program that names no large quantity and reads less than 32 KB (memory:unbounded_growth). The evidence lists exactly which functions, clauses, statements, options, formats, encodings, file-system conditions, exit codes and error classes were driven, and which generated function names were NOT",
+    "text": "PARTIAL. Lean 4 proof, over facts regenerated from /repo on every run (extract/errfacts: go/ast + go/types over every package of the module), of: the loaders' totality and rectangularity (csv/tsv, ltsv, fixed-length: EVERY character string under EVERY option vector decodes to an error or to a table whose records all have the header's length - theorems csv_loader_total, ltsv_loader_total, fixed_loader_total, re-using C02; JSON and JSON Lines: json_loader_total / jsonl_loader_total for every text [scanner + grammar + structure mapping of C02's models] and json_structure_loader_total / jsonl_structure_loader_total / json_query_loader_total for EVERY decoded JSON value - the structure mapping of lib/json LoadTable with the empty query and with the json-query {}, ConvertToTableValue and the collector of loadViewFromJsonLinesFile, modelled in the shape of the code in Csvq/Model/JsonStruct.lean, returns an error or a table whose records all have the header's length, whatever the key sets, key orders, repeated keys, non-object elements or nesting; fixed_singleline_loader_total: the same for single-line fixed-length files S[...]); the error -> exit-code table (exit_code_total: every constructor of lib/query/error.go passes a return code of the manual's Return Code table or one of the three documented dynamic codes EXIT n / TRIGGER ERROR n / 128+signal; return_codes_documented, exit_default_documented, error_numbers_distinct, ctor_numbers_known, ctor_number_determines_code); the listed index-guard fragments (strToTime_index_in_range: every s[i] of value.StrToTime under the path conditions on len(s) read off the source is in range for every length; arg_index_in_range (Csvq/Props/C19Args.lean): EVERY index / slice expression on an argument slice - the slice parameters of all function values of the Functions and AggregateFunctions tables and of every helper that receives them unchanged [roundParams, execMath1Arg, execStringsPadding, prepareRegExpMatch, StringFormatter.Format, UserDefinedFunction.execute ...], and the unevaluated lists <p>.Args in evalFunction / evalAggregateFunction / evalListFunction / checkArgsFor... / Analyze / windowValues / every AnalyticFunction's Execute under what its own CheckArgsLen established / setNthValue / setLag, with the locals built from them - is in range for EVERY number of arguments and every value of the index variable, under the conditions on the length that dominate it in the source [enclosing if / switch / && / ||, the negation of every earlier early return, loop conditions; regenerated facts, checker ArgIndexSite.ok proved sound for all lengths], except five reviewed sites whose guard is a call [UserDefinedFunction.CheckArgsLen with len-1; `expr.Args == nil` after the parser's arguments rule] and zero known defects in the argument handling; the same theorem covers the CONSTANT-INDEX SWEEP [family const: every X[k] / X[len(X)-k] / X[a:b] with constant bounds on a variable or field path of slice or string type in lib/query, lib/action, lib/cli, lib/option under the length conditions of the same function: 154 sites, 64 proved in range - e.g. prepared.Statements[0] of Cursor.Open -, the others, guarded by an invariant that is not a length condition in the same function, are PINNED by class with their number of occurrences (pinnedConstIndexSites: reviewed by class, NOT proved) so that a new or weakened guard breaks the obligation; one known site: release[0] of the network-only check-update sub-command on an empty JSON array]; arg_unknown_sites_reviewed: the six uses of such a slice without a rule are reviewed; arg_facts_cover_function_table: every key of the three function tables, every special and list function has a count-check fact [a new built-in without facts breaks the obligation]; limit_in_bounds, offset_in_bounds, limit_percent_nan_refused from C07; cursor_index_inv from C16); EVERY unchecked type assertion x.(T) of the hand-written files of lib/query, lib/action, lib/cli, lib/parser, lib/value, lib/json, lib/option (more than 500 sites, the count per guard class and per file is in the evidence; Csvq/Props/C19Asserts.lean) with its guard classified syntactically and checked per class - assertion_sites_ok / assertion_site_safe: inside `case T:` of a type switch over the same expression; behind a successful comma-ok test; or a value whose possible dynamic types form a regenerated finite set [the return statements of the function it comes from, followed through calls - value.ToInteger: *Integer or *Null ...; the GRAMMAR CONTRACT: what the actions of parser.y (a fixpoint over its productions) and every composite literal / assignment of the module store in that field of a parser node, nil if left out; what is ever stored in the SyncMap wrappers and sync.Pool variables] minus what dominating tests exclude [!value.IsNull(x), x != nil], every remaining type being (or implementing) T; or a value fetched BY NAME from a function that picks the type of its result by that name [Transaction.GetFlag, GetRuntimeInformation: regenerated table name -> types] inside `case <these names>:` of a switch over the same name; the sites outside the classes are listed ONE BY ONE (53 reviewed by kind of guard; no known defect left: the two the facts turned up - a back-quoted `JSON_OBJECT`(c1) and DELETE FROM (t), both [Fatal Error] interface conversion - are repaired in /repo, F107 / F108), a new unchecked assertion or a guard that no longer dominates breaks the obligation and is reported as assert:<file>:<function>:<x>.(<T>)#<occurrence>; and two static absence facts: no method call on an error variable where a DIFFERENT error variable is the one known non-nil (nil_error_sites_except_known) and no recover() guarded by state another goroutine sets (recover_unconditional_except_known) - each open site is reported as nilerr:<file>:<function>:<expr> / recover:<file>:<function>:<guard>. SIZE SITES (Csvq/Props/C19Sizes.lean over Csvq/Gen/SizeFacts.lean, regenerated by extract/errfacts/sizefacts.go for EVERY function of lib/query): one obligation per operand that makes the Go runtime panic when out of range - the count of strings.Repeat / bytes.Repeat, length and capacity of make([]T, n, c), every index with + / - in it (0 <= i, i < len), every slice expression with a non-constant bound (0 <= a <= b <= cap) and the ARGUMENT of every call of a function of the module that hands an int parameter on, unchanged and unguarded, as such a count / length / capacity [kind `call`: doc.Writer.WriteSpaces, NewUintPool, NewFieldIndexCache, NewReferenceRecord, NewEmptyHeader ...; the sink parameters are found by a fixpoint over the module] - 330 obligations, each with the operand as an integer IR and the facts that dominate the site read off the function by one structured walk (enclosing if / else / switch conditions, the negation of every early return above, definitions of the local variables involved, joins of branches as disjunctions [the clamp `if padLen < 0 { padLen = 0 }`], loop conditions and range bounds, 0 <= len <= cap, lower bounds of counters); size_sites_nonneg: for every obligation that is not in the reviewed list, for ALL integer valuations that satisfy the facts the operand is in range (one omega proof per obligation, built by the uniform tactic size_decide and checked by the kernel; 252 proved, among them all five Repeat counts of StringFormatter.Format [format_repeat_counts_proved]); what needs non-linear arithmetic, a parameter / callee contract, an invariant between data structures or a string-search result is pinned in exemptSizeSites (75 entries for 78 obligations, each with its reason and number of occurrences; exempt_size_counts, exempt_size_sites_exist: none stale), so a NEW unguarded site or a guard weakened until it no longer implies the range is a broken obligation; the driver then evaluates the same IR over small valuations (SCond.check, proved equal to the meaning: size_search_sound) to name a violating valuation, and for the formatter the valuation (width, len(s), len(sign)) is turned into FORMAT calls run on the binary built from the tree (law internal_panic with the call as replay). Fact sources added in the second round: every struct field has its own epoch under the variable it is reached from — an assignment `view.offset = 0` gives only that field a new name and a value fact (clamps written through a field are now facts: View.Offset's bounds are proved), a call forgets exactly the fields its callee can write, transitively, under the variables it gets (extract/errfacts/writes.go: per function of the module the fields on its assignment targets / address-of operands, closed over its calls; methods called through an interface = the union over the module's methods of that name; a function value = everything), fields never written anywhere in the module keep their value (GoroutineTaskManager.Number); a / c and a % c with a positive constant c are linearised truncated division; a successful make(n) leaves 0 <= n. LOOPS (Csvq/Props/C19Loops.lean over Csvq/Gen/LoopFacts.lean): all 63 `for` statements of lib/query, lib/value, lib/json that are not a range (the goyacc output of lib/json aside) with candidate measures read off their exit conditions (`i < n` -> n - i, `a <= b` -> b - a + 1, `!=` -> both differences, `for {}` -> the conditions of its `if c { break / return }`), each measure read at the head and at every back edge (end of the body, every continue, then the post statement): 81 obligations `measure' < measure and 0 <= measure` for ALL valuations of one iteration; loop_sites_terminate: 41 loops have a measure all of whose back edges are proved; 22 are reviewed in exemptLoopSites with reasons (16 have no integer measure at all: iterators, scanners, readers, the user's WHILE; Rand's rejection sampling; setNthValue's direction chosen before the loop; a fallthrough; an element read twice); for a loop that is neither, the driver's search names an iteration in which the measure does not decrease. Integers are mathematical: a loop that ends after 2^63 rounds or only by wrapping (C19-m11 / F52) is outside the statement and stays with the window-frame grid. CONVERSIONS (Csvq/Gen/IntConvFacts.lean): every float -> integer and narrowing / sign-changing integer conversion (8 in the walked packages; int64 -> int is the same width) whose result reaches a size or loop obligation of its function (5) gets float_to_size_guarded in two parts: the operand is a number (nan = 0) and its floor is inside the target's range, under the facts at the conversion; floats are carried as (nan, floor): a comparison that was TRUE says both operands are numbers, one that was FALSE says so only if no operand is NaN (the F11 shape), math.IsNaN decides; conv_nan_parts_proved: all four NaN parts are proved (removing View.Limit's IsNaN check breaks it), the range of View.group's min(len/18, 1000) is proved, the ranges of three products / quotients and Rand's deliberate uint64 wrap are reviewed. SECOND GROUP (Csvq/Props/C19Lib.lean over Csvq/Gen/LibSizeFacts.lean, LibLoopFacts.lean, LibIntConvFacts.lean; the package lists are parameters of the extractor): the same size / loop / conversion obligations for EVERY other non-test package that runs at query time - lib/doc, lib/json [hand-written files], lib/value, lib/option, lib/file, lib/terminal [the readline files aside], lib/syntax, lib/excmd, lib/cli, lib/action: 81 size obligations (lib_size_sites_nonneg: 58 proved for all valuations, 23 reviewed one by one in exemptLibSizeSites - io.Reader counts, scanner invariants, parameters whose calls are their own obligations, a maximum computed by a loop), 22 loops (lib_loop_sites_terminate: 7 proved, 15 reviewed: rune scanners of lib/excmd, bufio scanners, the lock retry loop, the interactive shell), no conversion reaching one (lib_conv_sites_ok). report_title_padding_proved: the padding that centres the TITLE of a report (lib/doc Writer.String: bytes.Repeat(' ', (hlLen - tw) / 2) with hlLen = max(tw + 2, lineWidth + 1, Column + 1) clamped to the screen width - the clamp is a disjunctive fact, the division by 2 is linearised) is found and proved from the guard `if tw < hlLen`; without the guard [C19-m23] the obligation is open, the driver's search (now a pruned depth-first search over the variables in definition order, for obligations with many variables: SizeSite.prunedCounterexample, still covered by size_search_sound) names tw and MaxWidth with MaxWidth + 2 <= tw, and vt/p_c19.py turns them into `csvq fields <generated path, that much longer than the 75 columns of a screen that is no terminal>` run on the binary with stdin from /dev/null (law internal_panic). RUN-TIME LAWS added: loaded_table_not_rectangular - after EVERY successful load of a generated table source through the exported loaders (query.LoadView on the FROM clause alone, lib/json LoadTable) every record has the header's length; sources: JSON arrays of objects whose key sets grow [a new key first at element 2, 3, the last; at the front / middle / end of the object; twice], shrink, reorder, are disjoint, empty, repeat a key, hold nested values - bare and wrapped, x 12 json-queries x file / JSON() / JSON_TABLE / JSON_INLINE / STDIN; the same sequences as JSON Lines, LTSV labels, CSV / TSV / fixed-length lines of changing field counts x uneven / no-header / without-null [~5000 loads per run, the file bytes and the command line are the replay; catches C19-m24, which C02's c02.jsload correspondence also catches]; the REPORT GRID - every statement that prints a titled report [SHOW FIELDS, ALTER TABLE SET, SHOW TABLES / VIEWS / CURSORS / FUNCTIONS / STATEMENTS / FLAGS / ENV / RUNINFO, SYNTAX with long keys] x names and paths of 24 lengths 1..200 through deep directories x 16 screen widths [no terminal = 75; terminals of 0..250 columns through Session.SetTerminal] x --color on / off in-process (~10000 statements), the attribute block of SHOW FIELDS x every format x encoding x line break x delimiters of every width class, and ~400 runs of the binary (fields / syntax sub-commands, --stats, the SHOW statements) with stdin from /dev/null and from a pseudo-terminal of 80 / 20 / 0 columns. Two exhaustive in-process grids are the dynamic twins: FORMAT / PRINTF placeholders (14 verbs x 5 flags x widths none 1 2 3 20 and digits-1 .. digits+2 x 5 precisions x 32 arguments, ~60000 calls) and LIMIT / OFFSET / WITH TIES / PERCENT over tables of 0..8 records with ties at both ends (every limit and offset 0..n+2, with / without ORDER BY, analytic and nested forms; with ORDER BY the rows are compared with the cut of the sorted keys: law limit_offset_rows). EXPLORATION for the rest of the property (a universally quantified absence over the whole program): process-level fuzzing of the real binary - arbitrary and mutated bytes x 6 formats x delimiter / positions / encoding / no-header / allow-uneven-fields / without-null / json-query as file, table object and stdin, with the rectangularity of the loaded view checked directly on the real loader; every key of the Functions / AggregateFunctions / AnalyticFunctions tables with 0-5 boundary arguments (scalar and over a 200-row table with --cpu 4); the ARITY GRID (correspondence, not only exploration): every name of the three tables, NOW / JSON_OBJECT / CALL and LISTAGG / JSON_AGG with EVERY argument count 0..7 [the widest built-in takes 5] through SQL text in-process (parser + evaluator glue + function; scalar and over a table, DISTINCT, GROUP BY, OVER (), PARTITION BY / ORDER BY / ROWS frames, IGNORE NULLS, WITHIN GROUP; 5-6 small argument vectors per count), user-defined scalar / aggregate functions with and without defaults against their declared signature; one op `c19.arity <table> <NAME> <count>` per cell: the implementation's answer [argument-length error or not] is compared with the Lean driver's answer computed from the regenerated count checks, a [Fatal Error] is confirmed on the binary and reported; the `fields` sub-command with an argument grid of every shape a FROM clause text can take [existing / missing file, identifier spellings, file: URLs, STDIN, table functions and *_INLINE forms, DUAL, parenthesised tables, sub-queries, set operations, join lists, aliases, trailing clauses, several statements, comments, empty, keywords]; prepared statements from degenerate texts [no statement, several, not a query, placeholders, broken, texts that use prepared statements] x every consumer of a statement name [EXECUTE with / without USING, cursor FOR statement + OPEN with / without USING + FETCH / loop, DISPOSE PREPARE then use, re-PREPARE between declaration and OPEN, inside a function]; every kind of named object [file table, temporary view, cursor, cursor for a statement, scalar / aggregate function, prepared statement, variable, undeclared, DUAL, built-in name] x 48 syntactic roles that take a name; every built-in / special / aggregate / analytic name and 18 keyword-like names called BACK-QUOTED (the generic production identifier '(' arguments ')') with 0-3 arguments, plain / OVER () / without FROM; 24 shapes of table object [identifier, quoted file, parenthesised table / join, join, table list, alias, sub-query, LATERAL, DUAL, STDIN, table function, inline table, file: URL, FILE:: / DATA::, temporary view, missing, keyword] as the target of 19 statements [DELETE (4 forms), UPDATE (2), INSERT (2), REPLACE, ALTER (4), SHOW FIELDS, FOR UPDATE, CREATE TABLE AS, DISPOSE VIEW, cursor, sub-query]; an IN-PROCESS function fuzzer (child processes of the harness call query.Functions[name] and the aggregate functions directly, under recover(), a memory limit and a watchdog: arity 0, ALL single values, ALL pairs over a typed compact pool of ~210 values [int64 / float boundaries, NULL, ternaries, datetimes, strings, every 1-character string over a 20-symbol alphabet, grammar-generated FORMAT / DATETIME_FORMAT strings, JSON texts, JSON queries incl. lone quotes and truncated forms, regular expressions, encoding / unit names] plus every 2-character string x 8 partners, ALL triples over a 16-value pool, a mode grid f(s,m) / f(s,x,m) / f(s,i,s2,m) / f(s,i,s2,m,m2) over 13 strings whose length, byte count and display width differ (empty, zero-width, combining, wide, surrogate pair, control, 5000 characters) x 6 small integers x 10 unit / encoding names, sampled 3-5-tuples: ~8 million calls per run; every recovered panic / stall is CONFIRMED on the real binary as csvq 'SELECT fn(<literals>)' before it is reported); JSON_OBJECT / JSON output key paths (aliases with dots, brackets, duplicates, empty) and malformed JSON queries through JSON_VALUE / JSON_ROW / JSON_TABLE / JSON_INLINE / JSON() / JSONL() / --json-query / SET @@JSON_QUERY; every clause and statement kind of the manual with holes filled from a boundary pool; file-system conditions (missing file, directory / dangling symlink / loop / FIFO in place of a file, unwritable targets of -o and CREATE TABLE, removed working directory, stale lock files); programs that reach the SAME file through different access paths in one transaction (plain name, quoted path, ./path, CSV/TSV/FIXED/JSON/JSONL/LTSV table functions, *_INLINE functions, sub-queries; read / FOR UPDATE / UPDATE / INSERT / DELETE / ALTER / after CREATE TABLE; every ordered pair per file, sampled triples); the grammars of structured option values (delimiter positions incl. s[], [ ], negative, decreasing, huge, nested, non-JSON; delimiter; encoding; line break; JSON escape; time zone; datetime format; numeric and boolean options) through every route that takes them (table function, command-line option, SET @@flag, ALTER TABLE, stdin, --out, csvq_env.json); option pairs over ragged / empty / blank-line data with column references beyond the shortest line; stale lock / read-lock / temp control files with wait timeouts 0, negative, tiny; joins of every kind x {field-less, empty, one, many rows} on each side at --cpu 1 and 4; option values crossed pairwise between the session level (option / SET @@) and the table-function arguments; user-defined functions whose body changes or reads tables, called from INSERT...SELECT / UPDATE / WHERE / JOIN / GROUP BY / ORDER BY; duplicate / unknown / too many names in USING, GROUP BY, ORDER BY, PARTITION BY, INSERT / REPLACE / CREATE / ALTER column lists; pathological LIKE patterns and regular expressions over 30-60 character subjects; tables with records but no fields in every clause position and output format; clause combinations in one query ({plain, analytic, aggregate, DISTINCT, GROUP BY, HAVING} x ORDER BY on {column, alias, ordinal, computed expression not in the list, aggregate, analytic, sub-query} x LIMIT / OFFSET over 2-5 rows); every output format x cells and header names that start with / end with / consist only of / contain each special character (CR, LF, CRLF, TAB, quotes, backslash, NUL, ESC, wide, combining, RTL, zero-width, BOM, invalid UTF-8 ...) with and without --out; window frames with int64-boundary offsets in every position (low / high bound x PRECEDING / FOLLOWING x every windowed function, 10 s watchdog); JSON Lines x json-query where the query yields [] / a scalar / a non-object for some lines (flag, JSONL(), SET @@JSON_QUERY, stdin); deterministic reproducers of the KNOWN findings F83 (self / mutual SOURCE nesting), F84 (unbounded user-defined-function recursion) and - thorough tier only - F97 (a prepared statement whose text executes itself), run under a small address-space limit and recognised by the nested frames of the goroutine dump; real files with record counts on both sides of the loader's internal thresholds (299, 300, 301, 320, 450, 680, 2000 and generated counts) x file encodings (UTF-8, UTF-8 BOM, Shift_JIS, UTF-16 LE/BE with and without BOM) read with the matching option, AUTO or a wrong one x cell repertoires that shrink or grow under transcoding (ASCII, half-width katakana, CJK, emoji, mixed) x CSV / TSV / LTSV / fixed-length / JSON Lines. Oracle: exit code documented, no 'Fatal Error' / Go panic text, 20 s wall-clock bound (a time-out is reported only if the job names no large quantity and still does not end when it is re-run alone with 4 times the bound), rectangular view, and no exhaustion of the 3 GB address space by a program that names no large quantity and reads less than 32 KB (memory:unbounded_growth). The evidence lists exactly which functions, clauses, statements, options, formats, encodings, file-system conditions, exit codes and error classes were driven, and which generated function names were NOT",
     "design_ref": "DESIGN.md section 5, C19",
-    "note": "proof for the loaders' totality/rectangularity (CSV/TSV/LTSV/fixed, and JSON/JSONL incl. the structure mapping for the empty json-query and {}; other json-queries are explored only), the error-code table and the listed index-guard fragments; exploration for everything else => partial. The argument-slice facts are about the INDEX EXPRESSIONS on the argument slices (out-of-range panics), not about what the functions do with the values; conditions are read per function and handed to callees with the call context; they are assumed to survive calls (argument slices are not resized by callees), an index variable counts as non-negative only if it is a range key or is only ever assigned non-negative constants / ++ (int wrap-around not considered), slices derived by calls (floatList(list), cmdargs built by append) are not argument slices and are not covered. Trusted: Lean kernel; extract/errfacts (syntactic, fails closed; nil-error and recover facts are intraprocedural patterns, not a nil-ness analysis; argfacts.go: the translation of if / switch / early-return structure into length conditions, tied to the running code for the count checks by the arity grid; the generic CheckArgsLen of analytic functions is compared with its reviewed text and Analyze's check-before-dispatch order is verified syntactically; assertsites.go / grammar.go: guard classes are syntactic dominance in one function; the tables of possible dynamic types are flow-insensitive unions over return statements / constructions, an AST node is assumed to be built by a composite literal, a declared zero value or a copy - not by reflection or decoding -, values stored through interfaces the analysis cannot resolve count as unknown, calls are assumed not to change the variable or field a test was made on; lib/parser's generated parser.go is not scanned, its source parser.y is read for the grammar contract); the loader models of C02 (tied to the code by C02's own correspondence); the harness oracle (text patterns, exit status). The size facts are intraprocedural and syntactic like the argument-slice facts: integers are mathematical (no overflow), quotients / products of variables / shifts / calls without a rule are unknowns, a field path or length is forgotten at every assignment under its variable and at every call that gets the variable as receiver or pointer argument (length accessors such as View.RecordLen are replaced by the len they return), elements read through an index get no name once the function assigns elements of that variable, function literals only keep facts about variables assigned once; 67 size obligations, 22 loops and 4 conversion ranges rest on reviewed reasons, not on proofs; termination is about mathematical integers (no wrap-around, no bound on the number of rounds); write sets assume that code outside the module does not assign the module's struct fields and ignore aliasing between two variables of one function. Not generated on purpose: external commands ($ ..., CALL), check-update (network), URLs, non-terminating programs (unbounded recursion / WHILE TRUE); children run under ulimit -v 3000000 and running out of memory under that limit is counted, not reported",
+    "note": "proof for the loaders' totality/rectangularity (CSV/TSV/LTSV/fixed, and JSON/JSONL incl. the structure mapping for the empty json-query and {}; other json-queries are explored only), the error-code table and the listed index-guard fragments; exploration for everything else => partial. The argument-slice facts are about the INDEX EXPRESSIONS on the argument slices (out-of-range panics), not about what the functions do with the values; conditions are read per function and handed to callees with the call context; they are assumed to survive calls (argument slices are not resized by callees), an index variable counts as non-negative only if it is a range key or is only ever assigned non-negative constants / ++ (int wrap-around not considered), slices derived by calls (floatList(list), cmdargs built by append) are not argument slices and are not covered. Trusted: Lean kernel; extract/errfacts (syntactic, fails closed; nil-error and recover facts are intraprocedural patterns, not a nil-ness analysis; argfacts.go: the translation of if / switch / early-return structure into length conditions, tied to the running code for the count checks by the arity grid; the generic CheckArgsLen of analytic functions is compared with its reviewed text and Analyze's check-before-dispatch order is verified syntactically; assertsites.go / grammar.go: guard classes are syntactic dominance in one function; the tables of possible dynamic types are flow-insensitive unions over return statements / constructions, an AST node is assumed to be built by a composite literal, a declared zero value or a copy - not by reflection or decoding -, values stored through interfaces the analysis cannot resolve count as unknown, calls are assumed not to change the variable or field a test was made on; lib/parser's generated parser.go is not scanned, its source parser.y is read for the grammar contract); the loader models of C02 (tied to the code by C02's own correspondence); the harness oracle (text patterns, exit status). The size facts are intraprocedural and syntactic like the argument-slice facts: integers are mathematical (no overflow), quotients / products of variables / shifts / calls without a rule are unknowns, a field path or length is forgotten at every assignment under its variable and at every call that gets the variable as receiver or pointer argument (length accessors such as View.RecordLen are replaced by the len they return), elements read through an index get no name once the function assigns elements of that variable, function literals only keep facts about variables assigned once; 78 + 23 size obligations, 22 + 15 loops and 4 conversion ranges rest on reviewed reasons, not on proofs; a `call` obligation exists only for parameters that reach the Repeat / make operand bare and unassigned (a parameter that is first copied or adjusted is the callee's own obligation); the result of (*go-text/json.Object).Len() is taken as non-negative (length accessor outside the module); termination is about mathematical integers (no wrap-around, no bound on the number of rounds); write sets assume that code outside the module does not assign the module's struct fields and ignore aliasing between two variables of one function. Not generated on purpose: external commands ($ ..., CALL), check-update (network), URLs, non-terminating programs (unbounded recursion / WHILE TRUE); children run under ulimit -v 3000000 and running out of memory under that limit is counted, not reported",
     "technique": "Lean 4 machine-checked proof over regenerated facts (kernel evaluation; one omega proof per regenerated size obligation) + re-used loader / LIMIT / cursor theorems + process-level fuzzing of the real binary with a classifying, shrinking oracle",
 }
 
@@ -101,21 +101,27 @@ SIZE_GEN = LEAN / "Csvq" / "Gen" / "SizeFacts.lean"
 SIZE_PROPS = LEAN / "Csvq" / "Props" / "C19Sizes.lean"
 
 
-SIZE_FILES = ("SizeFacts.lean", "LoopFacts.lean", "IntConvFacts.lean")
+SIZE_FILES = ("SizeFacts.lean", "LoopFacts.lean", "IntConvFacts.lean", "LibSizeFacts.lean", "LibLoopFacts.lean", "LibIntConvFacts.lean")
+LIB_PROPS = LEAN / "Csvq" / "Props" / "C19Lib.lean"
 
 
 def size_regen(run, ok):
     """the second output of extract/errfacts (size sites, loops, conversions): each file written if changed (the omega proofs of a
     file are only rebuilt when one of its sites or facts changed)"""
     d = run.scratch / "sizegen"
-    if not ok or not all((d / f).exists() for f in SIZE_FILES + ("sizefacts.json",)):
+    if not ok or not all((d / f).exists() for f in SIZE_FILES + ("sizefacts.json", "libsizefacts.json")):
         return None
     with Lock("lake"):
         for f in SIZE_FILES:
             txt, dst = (d / f).read_text(), LEAN / "Csvq" / "Gen" / f
             if not dst.exists() or dst.read_text() != txt:
                 dst.write_text(txt)
-    return json.loads((d / "sizefacts.json").read_text())
+    data = json.loads((d / "sizefacts.json").read_text())
+    data["lib"] = json.loads((d / "libsizefacts.json").read_text())
+    for k in ("sizes", "loop_edges", "loops", "conversions"):
+        if data["lib"].get(k) is None:
+            data["lib"][k] = []
+    return data
 
 
 def size_driver(lines):
@@ -129,9 +135,9 @@ def size_driver(lines):
     return p.stdout.split("\n")[:len(lines)] if p.returncode == 0 else None
 
 
-def size_exempt():
-    txt = SIZE_PROPS.read_text() if SIZE_PROPS.exists() else ""
-    body = section(txt, "exemptSizeSites")
+def size_exempt(props=SIZE_PROPS, name="exemptSizeSites"):
+    txt = props.read_text() if props.exists() else ""
+    body = section(txt, name)
     return [{"file": unq(m.group(1)), "fn": unq(m.group(2)), "expr": unq(m.group(3)), "what": unq(m.group(4)), "count": int(m.group(5)), "reason": unq(m.group(6))}
             for m in re.finditer(r"⟨%s, %s, %s, %s, (\d+), %s⟩" % (STR, STR, STR, STR, STR), body)]
 
@@ -157,18 +163,47 @@ def format_replays(site, names, vals):
     return out
 
 
-def size_part(run, sites, csvq):
+def title_replays(run, names, vals):
+    """doc.Writer.String: a valuation (tw = width of the title, MaxWidth = screen width) with MaxWidth + 2 <= tw names a family of
+    reports whose title is that much wider than the screen; the screen is 75 columns when standard input is not a terminal and the
+    title of `csvq fields <path>` is "Fields in <path>" (10 + len(path) columns): a generated path of that length, in a fresh directory"""
+    tw = [v for n, v in zip(names, vals) if n.startswith("tw#")]
+    mw = [v for n, v in zip(names, vals) if n.endswith(".MaxWidth")]
+    if not tw or not mw:
+        return []
+    over = max(tw[-1] - mw[0], 2)
+    out = []
+    for extra in (0, 1, 10):
+        want = 75 + over + extra - 10
+        parts, left = ["."], want - 2 - len("/t.csv")
+        while left > 0:
+            k = min(left - 1, 40) if left > 1 else 0
+            if k <= 0:
+                break
+            parts.append("d" * k)
+            left -= k + 1
+        rel = "/".join(parts) + "/t.csv"
+        base = run.scratch / "title_replay"
+        (base / rel).parent.mkdir(parents=True, exist_ok=True)
+        (base / rel).write_text("id,name\n1,a\n")
+        out.append((["fields", rel], base, "mkdir -p %s && printf 'id,name\\n1,a\\n' > %s && csvq fields %s < /dev/null" % ("/".join(parts), rel, rel)))
+        out.append((["SHOW FIELDS FROM `%s`" % rel], base, "mkdir -p %s && printf 'id,name\\n1,a\\n' > %s && csvq 'SHOW FIELDS FROM `%s`' < /dev/null" % ("/".join(parts), rel, rel)))
+    return out
+
+
+def size_part(run, sites, csvq, op="size", props=SIZE_PROPS, exname="exemptSizeSites"):
     """what the size obligations say on this tree: open obligations (not proved, not reviewed) with a violating valuation from
-    the driver's search and, where a valuation can be turned into a call (the formatter), the call run on the real binary"""
+    the driver's search and, where a valuation can be turned into a call (the formatter: FORMAT calls; the title of a report:
+    `csvq fields <generated long path>`), the call run on the real binary"""
     cov = {"obligations": 0}
     if sites is None:
         return cov
-    ans = size_driver(["c19.sizeopen"])
+    ans = size_driver(["c19.%sopen" % op])
     if ans is None:
-        run.problems.append(Problem("build", "model-driver", "model-c19 did not answer c19.sizeopen"))
+        run.problems.append(Problem("build", "model-driver", "model-c19 did not answer c19.%sopen" % op))
         return cov
     unproved = [int(x) for x in ans[0].split(",")] if ans[0] not in ("-", "") else []
-    exempt = size_exempt()
+    exempt = size_exempt(props, exname)
     left = {(e["file"], e["fn"], e["expr"], e["what"]): e["count"] for e in exempt}
     per_kind, per_file, cls = {}, {}, {}
     for x in sites:
@@ -191,12 +226,12 @@ def size_part(run, sites, csvq):
            "neither_proved_nor_reviewed": ["%s:%d %s %s [%s]" % (sites[i]["file"], sites[i]["line"], sites[i]["fn"], sites[i]["expr"], sites[i]["what"]) for i in open_]}
     if not open_:
         return cov
-    cex = size_driver(["c19.sizesearch %d" % i for i in open_[:12]]) or []
+    cex = size_driver(["c19.%ssearch %d" % (op, i) for i in open_[:12]]) or []
     for n, i in enumerate(open_[:12]):
         x = sites[i]
         sg = "size:%s:%s:%s:%s" % (x["file"], x["fn"], x["expr"], x["what"])
-        detail = {"what": "size obligation neither proved for all valuations (omega over the facts that dominate the site) nor reviewed in lean/Csvq/Props/C19Sizes.lean: "
-                          "the operand can be out of range as far as the guards of this function say (Go panics: negative Repeat count / makeslice: len out of range / index or slice bounds out of range)",
+        detail = {"what": "size obligation neither proved for all valuations (omega over the facts that dominate the site) nor reviewed in lean/Csvq/Props/%s: "
+                          "the operand can be out of range as far as the guards of this function say (Go panics: negative Repeat count / makeslice: len out of range / index or slice bounds out of range)" % props.name,
                   "site": "%s:%d" % (x["file"], x["line"]), "function": x["fn"], "expression": x["expr"], "bound": x["what"], "obligation": x["goal"], "facts_at_the_site": x["conds"]}
         vals = None
         if n < len(cex) and cex[n].startswith("cex "):
@@ -215,13 +250,27 @@ def size_part(run, sites, csvq):
                     found = (st, r.returncode, text)
                     break
             detail["calls_derived_from_the_valuation"] = len(tried)
+        how = "turned into a FORMAT call"
+        if vals is not None and csvq and x["fn"] == "Writer.String" and x["file"] == "lib/doc/writer.go":
+            how = "turned into a report whose title is that much wider than the 75 columns of a screen that is no terminal"
+            tried = title_replays(run, x["vars"], vals)
+            for argv, cwd, text_cmd in tried:
+                try:
+                    r = subprocess.run([str(csvq)] + argv, cwd=str(cwd), capture_output=True, text=True, timeout=20, stdin=subprocess.DEVNULL)
+                except subprocess.TimeoutExpired:
+                    continue
+                text = r.stdout + r.stderr
+                if "Fatal Error" in text or "panic:" in text or "goroutine " in text:
+                    found = (text_cmd, r.returncode, text)
+                    break
+            detail["calls_derived_from_the_valuation"] = len(tried)
         run.problems.append(Problem("direct", sg, detail, concrete=False, signature=sg))
         if found:
             run.problems.append(Problem("law", "internal_panic", {
-                "command": "csvq \"%s\"" % found[0], "exit_code": found[1], "output": found[2][:700],
-                "reproduce": "csvq \"%s\"" % found[0], "stream": "size obligations",
-                "found_as": "valuation %s of the violated size obligation %s at %s:%d, turned into a FORMAT call and run on the binary built from the tree" % (
-                    detail.get("violating_valuation"), x["goal"], x["file"], x["line"])}, concrete=True, signature="law:internal_panic"))
+                "command": found[0] if found[0].startswith("mkdir") else "csvq \"%s\"" % found[0], "exit_code": found[1], "output": found[2][:700],
+                "reproduce": found[0] if found[0].startswith("mkdir") else "csvq \"%s\"" % found[0], "stream": "size obligations",
+                "found_as": "valuation %s of the violated size obligation %s at %s:%d, %s and run on the binary built from the tree" % (
+                    detail.get("violating_valuation"), x["goal"], x["file"], x["line"], how)}, concrete=True, signature="law:internal_panic"))
     return cov
 
 
@@ -242,17 +291,17 @@ def valuation_of(answer, names):
     return {nm: v for nm, v in zip(names, vals)}
 
 
-def loop_part(run, data):
+def loop_part(run, data, op="loop", props=LOOP_PROPS, exname="exemptLoopSites"):
     """loops: every for statement (range aside) with its measures; open = no measure with all back edges proved and not reviewed"""
     if not data:
         return {"loops": 0}
     loops, edges = data["loops"], data["loop_edges"]
-    ans = size_driver(["c19.loopopen"])
+    ans = size_driver(["c19.%sopen" % op])
     if ans is None:
-        run.problems.append(Problem("build", "model-driver", "model-c19 did not answer c19.loopopen"))
+        run.problems.append(Problem("build", "model-driver", "model-c19 did not answer c19.%sopen" % op))
         return {"loops": len(loops)}
     unproved = [int(x) for x in ans[0].split(",")] if ans[0] not in ("-", "") else []
-    exempt = refs_of(LOOP_PROPS, "exemptLoopSites", 3)
+    exempt = refs_of(props, exname, 3)
     left = {e[:3]: e[3] for e in exempt}
     cls = {}
     for e in exempt:
@@ -275,31 +324,31 @@ def loop_part(run, data):
     for i in open_[:8]:
         l = loops[i]
         sg = "loop:%s:%s:%s" % (l["file"], l["fn"], l["header"])
-        detail = {"what": "loop neither proved to terminate (a measure read off its exit conditions that is non-negative at the head and decreases along every back edge, for all valuations of one iteration) nor reviewed in lean/Csvq/Props/C19Loops.lean",
+        detail = {"what": "loop neither proved to terminate (a measure read off its exit conditions that is non-negative at the head and decreases along every back edge, for all valuations of one iteration) nor reviewed in lean/Csvq/Props/%s" % props.name,
                   "site": "%s:%d" % (l["file"], l["line"]), "function": l["fn"], "loop": l["header"], "back_edges": l["back_edges"], "measures_tried": [m["text"] for m in l["measures"]]}
-        ed = size_driver(["c19.loopedges %d" % i]) or ["-"]
+        ed = size_driver(["c19.%sedges %d" % (op, i)]) or ["-"]
         bad = [int(t.rstrip("!")) for t in re.split(r"[;+]", ed[0]) if t.endswith("!")]
         if bad:
             x = edges[bad[0]]
             detail.update({"unproved_obligation": x["goal"], "measure_and_back_edge": x["what"], "facts_on_that_path": x["conds"]})
-            v = valuation_of((size_driver(["c19.loopsearch %d" % bad[0]]) or [""])[0], x["vars"])
+            v = valuation_of((size_driver(["c19.%ssearch %d" % (op, bad[0])]) or [""])[0], x["vars"])
             if v is not None:
                 detail["iteration_in_which_the_measure_does_not_decrease"] = v
         run.problems.append(Problem("direct", sg, detail, concrete=False, signature=sg))
     return cov
 
 
-def conv_part(run, data):
+def conv_part(run, data, op="conv", exname="exemptConvSites"):
     """float -> integer and narrowing conversions that reach a size / loop obligation"""
     if not data:
         return {"conversions": 0}
     convs = data["conversions"]
-    ans = size_driver(["c19.convopen"])
+    ans = size_driver(["c19.%sopen" % op])
     if ans is None:
-        run.problems.append(Problem("build", "model-driver", "model-c19 did not answer c19.convopen"))
+        run.problems.append(Problem("build", "model-driver", "model-c19 did not answer c19.%sopen" % op))
         return {"conversions": len(convs)}
     unproved = [int(x) for x in ans[0].split(",")] if ans[0] not in ("-", "") else []
-    exempt = refs_of(LOOP_PROPS, "exemptConvSites", 4)
+    exempt = refs_of(LOOP_PROPS, exname, 4) if exname else []
     left = {e[:4]: e[4] for e in exempt}
     open_ = []
     for i in unproved:
@@ -320,7 +369,7 @@ def conv_part(run, data):
         detail = {"what": "conversion to an integer whose result reaches a size operand or a loop bound, neither guarded for all valuations (operand not NaN and inside the range of the target type under the facts that dominate it) nor reviewed in lean/Csvq/Props/C19Loops.lean: "
                           "NaN / +-Inf / out-of-range operands convert to a platform-defined value (the minimum integer on amd64)",
                   "site": "%s:%d" % (c["file"], c["line"]), "function": c["fn"], "conversion": c["expr"], "kind": c["what"], "obligation": c["goal"], "facts_at_the_conversion": c["conds"], "reaches": c.get("flows_into")}
-        v = valuation_of((size_driver(["c19.convsearch %d" % i]) or [""])[0], c["vars"])
+        v = valuation_of((size_driver(["c19.%ssearch %d" % (op, i)]) or [""])[0], c["vars"])
         if v is not None:
             detail["operand_the_guards_let_through"] = v
         run.problems.append(Problem("direct", sg, detail, concrete=False, signature=sg))
@@ -371,7 +420,9 @@ def run(run):
         run.obligations_for(["Csvq.Props.C19Sizes"])
         second = list(run.cov["obligation_names"])
         run.obligations_for(["Csvq.Props.C19Loops"])
-        run.cov["obligation_names"] = first + second + run.cov["obligation_names"]
+        third = list(run.cov["obligation_names"])
+        run.obligations_for(["Csvq.Props.C19Lib"])
+        run.cov["obligation_names"] = first + second + third + run.cov["obligation_names"]
 
     before = len(run.problems)
     stats = None
@@ -381,6 +432,11 @@ def run(run):
     law_names = {p.name for p in run.problems[before:] if p.kind == "law"}
     size_cov = size_part(run, size_sites, csvq)
     loop_cov, conv_cov = loop_part(run, size_data), conv_part(run, size_data)
+    lib_data = size_data["lib"] if size_data else None
+    lib_cov = {"packages": "lib/action lib/cli lib/doc lib/excmd lib/file lib/json lib/option lib/syntax lib/terminal (readline files aside) lib/value",
+               "size_sites": size_part(run, lib_data["sizes"] if lib_data else None, csvq, op="libsize", props=LIB_PROPS, exname="exemptLibSizeSites"),
+               "loop_sites": loop_part(run, lib_data, op="libloop", props=LIB_PROPS, exname="exemptLibLoopSites"),
+               "conversion_sites": conv_part(run, lib_data, op="libconv", exname=None)}
     for p in static:
         if p.signature.startswith("nilerr:") and "cacheViewFromFile" in p.signature:
             p.detail["reproduced_on_the_binary"] = "fatal:nil_error_removed_cwd" in law_names
@@ -429,6 +485,14 @@ def run(run):
         "size_sites": size_cov,
         "loop_sites": loop_cov,
         "conversion_sites": conv_cov,
+        "second_group_of_packages": lib_cov,
+        "loaded_table_grid": {"loads": dist.get("rect_grid_loads", 0), "successful_loads_checked_for_rectangularity": dist.get("rect_grid_successful_loads", 0),
+                              "outcomes": {k[13:]: v for k, v in dist.items() if k.startswith("rect_outcome:")}, "routes": {k[11:]: v for k, v in dist.items() if k.startswith("rect_route:")},
+                              "key_set_shapes": sorted(k[11:] for k in dist if k.startswith("rect_shape:")), "violations": {k[15:]: v for k, v in dist.items() if k.startswith("rect_violation:")}},
+        "report_grid": {"statements_in_process": dist.get("report_grid_calls", 0), "shape": [k for k in dist if k.startswith("report_grid: ")],
+                        "outcomes": {k[15:]: v for k, v in dist.items() if k.startswith("report_outcome:")}, "fatal": {k[13:]: v for k, v in dist.items() if k.startswith("report_fatal:")},
+                        "process_runs": dist.get("group:report", 0), "reports": driven("report:"), "title_lengths": driven("title-length:"),
+                        "stdin": sorted(k for k in dist if k.startswith("stdin:terminal") or k == "stdin:not-a-terminal"), "color": driven("color:")},
         "placeholder_grid": {"calls": dist.get("format_grid_calls", 0), "outcomes": {k[20:]: v for k, v in dist.items() if k.startswith("format_grid_outcome:")},
                              "shape": [k for k in dist if k.startswith("format_grid: ")]},
         "paging_grid": {"calls": dist.get("paging_grid_calls", 0), "outcomes": {k[20:]: v for k, v in dist.items() if k.startswith("paging_grid_outcome:")},
@@ -502,11 +566,11 @@ def run(run):
         s["distribution"] = {k: v for k, v in d.items() if k.startswith(("group:", "law_seen:", "exit:", "observed:", "inproc_c", "inproc_o", "inproc_a"))}
     return run.finish(
         level="proof",
-        rule="proof part: obligations = theorems of Csvq/Props/C19.lean, Csvq/Props/C19Args.lean, Csvq/Props/C19Asserts.lean, Csvq/Props/C19Sizes.lean and Csvq/Props/C19Loops.lean over Csvq/Gen/ErrFacts.lean, SizeFacts.lean, LoopFacts.lean and IntConvFacts.lean regenerated on this run. Correspondence part: one case = one cell (function name, argument count) of the arity grid, the implementation's answer (argument-length error or not, over 5-30 SQL statements per cell) against the Lean driver model-c19 evaluating the regenerated count checks. Exploration part: one case = one run of the real csvq binary in a fresh directory (corpus of earlier findings; file-system conditions; clause / statement templates with holes filled from a 190-value boundary pool and random command-line options; every function of the three tables with 0-5 pool / column arguments, scalar and over 200 rows with --cpu 4; in-process calls of every scalar and aggregate function (each call counted as one evaluation; exhaustive singles / pairs / triples over typed pools, see inprocess_function_fuzzer), candidates confirmed on the binary; JSON key-path and JSON-query routes; arbitrary / mutated / transcoded bytes x format x import options as file, table object and stdin); non-trivial = distinct (group, set of tags [function, arity, call site, clause, statement, options, format, byte source, encoding, fs condition], exit code) for process runs, distinct (function, arity) and (function, outcome class value/null/error/panic) for in-process calls",
+        rule="proof part: obligations = theorems of Csvq/Props/C19.lean, Csvq/Props/C19Args.lean, Csvq/Props/C19Asserts.lean, Csvq/Props/C19Sizes.lean, Csvq/Props/C19Loops.lean and Csvq/Props/C19Lib.lean over Csvq/Gen/ErrFacts.lean, SizeFacts.lean, LoopFacts.lean, IntConvFacts.lean and their Lib* twins regenerated on this run. Correspondence part: one case = one cell (function name, argument count) of the arity grid, the implementation's answer (argument-length error or not, over 5-30 SQL statements per cell) against the Lean driver model-c19 evaluating the regenerated count checks. Exploration part: one case = one run of the real csvq binary in a fresh directory (corpus of earlier findings; file-system conditions; clause / statement templates with holes filled from a 190-value boundary pool and random command-line options; every function of the three tables with 0-5 pool / column arguments, scalar and over 200 rows with --cpu 4; in-process calls of every scalar and aggregate function (each call counted as one evaluation; exhaustive singles / pairs / triples over typed pools, see inprocess_function_fuzzer), candidates confirmed on the binary; JSON key-path and JSON-query routes; arbitrary / mutated / transcoded bytes x format x import options as file, table object and stdin); non-trivial = distinct (group, set of tags [function, arity, call site, clause, statement, options, format, byte source, encoding, fs condition], exit code) for process runs, distinct (function, arity) and (function, outcome class value/null/error/panic) for in-process calls",
         trusted_base=BASE_TRUST + [
-            "extract/errfacts (go/ast + go/types, fails closed): constant tables, constructors, the manual's Return Code table, cli.Exit, nil-error and recover patterns, function tables, StrToTime index sites, argument-slice index sites and count checks (argfacts.go), size sites, loops and conversions with the facts that dominate them (sizefacts.go, loopfacts.go, writes.go: the structured walk - epochs per variable and per field, joins, havoc at loops / literals, callee write sets - is trusted to produce only facts that hold at the site; the choice of back edges and measures of a loop is part of it), unchecked type assertions with the tables of possible dynamic types (assertsites.go; grammar.go reads parser.y's actions and every construction of a parser node in the module)",
+            "extract/errfacts (go/ast + go/types, fails closed): constant tables, constructors, the manual's Return Code table, cli.Exit, nil-error and recover patterns, function tables, StrToTime index sites, argument-slice index sites and count checks (argfacts.go), size sites, loops and conversions of both package groups with the facts that dominate them (sizefacts.go, loopfacts.go, writes.go: the structured walk - epochs per variable and per field, joins, havoc at loops / literals, callee write sets - is trusted to produce only facts that hold at the site; the choice of back edges and measures of a loop is part of it), unchecked type assertions with the tables of possible dynamic types (assertsites.go; grammar.go reads parser.y's actions and every construction of a parser node in the module)",
             "the loader models of C02 and the LIMIT / cursor models of C07 / C16 (each tied to the code by its own property's correspondence)",
             "harness/cmd/c19: generators, the classifying oracle (exit status + text patterns), /bin/sh + ulimit for the children"],
-        checker_cmd="cd /verif && ERRFACTS_SIZE_DIR=<dir: SizeFacts.lean LoopFacts.lean IntConvFacts.lean, copied into lean/Csvq/Gen if changed> go run -C extract/errfacts . > lean/Csvq/Gen/ErrFacts.lean && cd lean && lake build Csvq.Props.C19 Csvq.Props.C19Args Csvq.Props.C19Asserts Csvq.Props.C19Sizes Csvq.Props.C19Loops model-c19 && lake env lean <#print axioms for every theorem>; cd /verif/harness && go build -tags verif ./cmd/c19 && VERIF_CSVQ=<csvq built from /repo with -tags verif> ./c19 -seed S -n N -out DIR",
+        checker_cmd="cd /verif && ERRFACTS_SIZE_DIR=<dir: SizeFacts.lean LoopFacts.lean IntConvFacts.lean LibSizeFacts.lean LibLoopFacts.lean LibIntConvFacts.lean, copied into lean/Csvq/Gen if changed> go run -C extract/errfacts . > lean/Csvq/Gen/ErrFacts.lean && cd lean && lake build Csvq.Props.C19 Csvq.Props.C19Args Csvq.Props.C19Asserts Csvq.Props.C19Sizes Csvq.Props.C19Loops Csvq.Props.C19Lib model-c19 && lake env lean <#print axioms for every theorem>; cd /verif/harness && go build -tags verif ./cmd/c19 && VERIF_CSVQ=<csvq built from /repo with -tags verif> ./c19 -seed S -n N -out DIR",
         extra_cov=extra,
     )
